@@ -744,6 +744,22 @@ class Expander:
                     elif w2[0] == "head":
                         lc["head"] = raw_block(cc)
                 spec.setdefault("lifts", []).append(lc)
+            elif k == "twin":
+                # twin <name>  + children: sig <params and return>, self_is <Type>
+                # The body of this fn is emitted a second time, verbatim (`Self` spelled out), as a free fn <name> carrying the
+                # SAME ensures/requires text, after the enclosing impl block. For trait-impl fns whose own contract Verus cannot
+                # discharge in place (external_body: dependency cycle between `impl TryFrom` and its `TryFromSpecImpl`), the
+                # twin is where the real body is verified against the contract that callers assume.
+                tw = {"name": w[1].strip(), "sig": None, "self": None}
+                for cc in c["children"]:
+                    w2 = cc["text"].split(None, 1)
+                    if w2[0] == "sig":
+                        tw["sig"] = w2[1]
+                    elif w2[0] == "self_is":
+                        tw["self"] = w2[1].strip()
+                    else:
+                        raise ValueError("%s:%d unknown twin directive %r" % (self.tmpl_path, cc["line"], cc["text"]))
+                spec["twin"] = tw
             elif k == "loop":
                 n = int(w[1])
                 d = spec["loops"].setdefault(n, {})
@@ -990,6 +1006,9 @@ class Expander:
             self.rewrites.append("%s: identifier `%s` alpha-renamed to `%s` in %s (%d occurrences; Verus cannot take a parameter named like its function)" % (rel, a, b, fnid, n))
         self.out.add("\n\n", ("tmpl", fnid))
         self.fns.append({"id": fnid, "file": rel, "line": line, "body": True, "requires": len(spec["requires"]), "ensures": len(spec["ensures"]), "clauses": ncl, "loops": len(loops)})
+        if spec.get("twin"):
+            self._pending_twins = getattr(self, "_pending_twins", [])
+            self._pending_twins.append((spec["twin"], fnid, rel, src, an.body_open, it.end, line, spec["requires"], spec["ensures"]))
         for lc, lifted_id, lrel, body, boff, lline in getattr(self, "_pending_lifts", []):
             for a in lc["attrs"]:
                 self.out.add("    " + a + "\n", ("tmpl", lifted_id, "attr"))
@@ -1006,6 +1025,32 @@ class Expander:
             self.out.add(" }\n\n", ("tmpl", lifted_id))
             self.fns.append({"id": lifted_id, "file": lrel, "line": lline, "body": True, "requires": len(lc["requires"]), "ensures": len(lc["ensures"]), "clauses": len(lc["requires"]) + len(lc["ensures"]), "loops": 0})
         self._pending_lifts = []
+
+    def flush_twins(self):
+        for tw, fnid, rel, src, b_open, b_end, line, req, ens in getattr(self, "_pending_twins", []):
+            tid = "%s [twin %s]" % (fnid, tw["name"])
+            self.out.add("fn %s%s" % (tw["name"], tw["sig"]), ("tmpl", tid, "sig"))
+            self.emit_contract("requires", req, tid)
+            self.emit_contract("ensures", ens, tid)
+            self.out.add("{", ("repo", rel, b_open))
+            if self.vac:
+                self.out.add(" proof { assert(false); } ", ("vac", tid))
+                self.vac_sites.append(tid)
+            pos = b_open + 1
+            nself = 0
+            if tw["self"]:
+                for t in rlex.code_toks(rlex.lex(src[b_open + 1:b_end])):
+                    if t.kind == "ident" and t.text == "Self":
+                        a0 = b_open + 1 + t.start
+                        self.emit_repo(rel, src, pos, a0)
+                        self.out.add(tw["self"], ("rewrite", rel, a0))
+                        pos = a0 + 4
+                        nself += 1
+            self.emit_repo(rel, src, pos, b_end)
+            self.out.add("\n\n", ("tmpl", tid))
+            self.rewrites.append("%s: body of %s emitted a second time, verbatim (%d `Self` spelled out as %s), as free fn %s with the same contract text" % (rel, fnid, nself, tw["self"], tw["name"]))
+            self.fns.append({"id": tid, "file": rel, "line": line, "body": True, "requires": len(req), "ensures": len(ens), "clauses": len(req) + len(ens), "loops": 0})
+        self._pending_twins = []
 
     def do_container(self, rel, src, items, node):
         words = node["text"].split(None, 1)
@@ -1104,6 +1149,7 @@ class Expander:
                     self.out.add("\n", ("tmpl", cname))
             self.out.add("}\n\n", ("repo", rel, it.toks[it.ti_end].start))
             self._container_external = False
+            self.flush_twins()
             if notsel:
                 self.skipped.append("%s (%s): %d other fns of this block not extracted in this unit" % (cname, rel, len(notsel)))
         for a, _ in const_subs:
